@@ -282,6 +282,77 @@ func init() {
 			return false, obs + " (no oracle for this clause)"
 		})
 	}
+	// tracers/native: the shortest well-nested event stream that reaches the failing clause, fed to the real tracer
+	ev := func(name string, kv ...any) map[string]any {
+		m := map[string]any{"ev": name}
+		for i := 0; i+1 < len(kv); i += 2 {
+			m[kv[i].(string)] = kv[i+1]
+		}
+		return m
+	}
+	nativeRun := func(c *Ctx, driver string, scenario map[string]any, confirm func(map[string]any) (bool, string)) *ReplayRun {
+		cmd, out, _ := c.runOverlayTest("tracers/native", nativeReplayTestSrc, "TestZZVerifReplay", scenario, 5*time.Minute)
+		run := &ReplayRun{Driver: driver, Scenario: scenario, Command: cmd, Output: tail(out, 3000)}
+		i := strings.Index(out, "ZZREPLAY ")
+		if i < 0 {
+			run.Observed = "the replay test did not produce a result line"
+			return run
+		}
+		line := out[i+len("ZZREPLAY "):]
+		if j := strings.IndexByte(line, '\n'); j >= 0 {
+			line = line[:j]
+		}
+		var ro map[string]any
+		if err := json.Unmarshal([]byte(line), &ro); err != nil {
+			run.Observed = "unparsable result line"
+			return run
+		}
+		run.Confirmed, run.Observed = confirm(ro)
+		return run
+	}
+	panicked := func(ro map[string]any) (bool, string) {
+		if p, _ := ro["panicked"].(bool); p {
+			return true, fmt.Sprint("real tracer panicked: ", ro["panic"])
+		}
+		b, _ := json.Marshal(ro["result"])
+		return false, "tracer finished: " + string(b)
+	}
+	aspectCallStream := func(tracer string) map[string]any {
+		return map[string]any{"tracer": tracer, "events": []any{ev("txstart", "gas", 1000000), ev("start", "to", "0xbb", "gas", 900000),
+			ev("aspectenter", "jp", 4, "aspect", "0xa1", "to", "0xbb", "gas", 1000), ev("enter", "to", "0xcc", "gas", 500), ev("exit", "gas", 100)}}
+	}
+	replayers["(*tracers/native.callTracer).CaptureExit"] = func(c *Ctx, prop string, o *Obl) *ReplayRun {
+		return nativeRun(c, "event stream: an Aspect running at the pre-contract-call join point issues an EVM call (call tracer)", aspectCallStream("call"), panicked)
+	}
+	replayers["(*tracers/native.flatCallTracer).CaptureExit"] = func(c *Ctx, prop string, o *Obl) *ReplayRun {
+		return nativeRun(c, "event stream: an Aspect running at the pre-contract-call join point issues an EVM call (flat call tracer)", aspectCallStream("flat"), panicked)
+	}
+	replayers["(*tracers/native.callTracer).CaptureAspectExit"] = func(c *Ctx, prop string, o *Obl) *ReplayRun {
+		sc := map[string]any{"tracer": "call", "events": []any{ev("txstart", "gas", 1000000), ev("start", "to", "0xbb", "gas", 900000),
+			ev("aspectenter", "jp", 4, "aspect", "0xa1", "to", "0xbb", "gas", 100), ev("aspectexit", "jp", 4, "gas_left", 40),
+			ev("aspectenter", "jp", 4, "aspect", "0xa2", "to", "0xbb", "gas", 90), ev("aspectexit", "jp", 4, "gas_left", 10),
+			ev("end", "gas", 1), ev("txend", "gas_left", 5)}}
+		return nativeRun(c, "event stream: two Aspects on the same join point of one call (gas 100 -> 40 left, then gas 90 -> 10 left)", sc, func(ro map[string]any) (bool, string) {
+			if p, _ := ro["panicked"].(bool); p {
+				return true, fmt.Sprint("real tracer panicked: ", ro["panic"])
+			}
+			b, _ := json.Marshal(ro["result"])
+			var fr struct {
+				JoinPoints []struct {
+					GasUsed string `json:"gasUsed"`
+					Aspect  string `json:"aspect"`
+				} `json:"joinPoints"`
+			}
+			_ = json.Unmarshal(b, &fr)
+			if len(fr.JoinPoints) != 2 {
+				return true, "expected two Aspect frames, got: " + string(b)
+			}
+			if fr.JoinPoints[0].GasUsed != "0x3c" || fr.JoinPoints[1].GasUsed != "0x50" {
+				return true, fmt.Sprintf("Aspect frames report gasUsed %s and %s; each Aspect's own gas used is 0x3c (60) and 0x50 (80)", fr.JoinPoints[0].GasUsed, fr.JoinPoints[1].GasUsed)
+			}
+			return false, "both Aspect frames carry their own gas used"
+		})
+	}
 	for _, pc := range []string{"aspcontext", "userOpSender", "contextWriter"} {
 		pc := pc
 		replayers["(*vm."+pc+").Run"] = func(c *Ctx, prop string, o *Obl) *ReplayRun {
